@@ -108,7 +108,7 @@ Section Env.
 
   Definition eval_fmt (b : body) (a : value V) : option fmt_calls :=
     match b with
-    | BDebugStruct d => Some (eval_debug_body d a)
+    | BDebugStruct d _ => Some (eval_debug_body d a)
     | BDebugEnum vs =>
         match find (fun x => String.eqb (arm3_name (fst x)) (v_variant a)) vs with
         | Some (_, d) => Some (eval_debug_body d a)
